@@ -108,6 +108,7 @@ def campaign(tier, seed):
             os.remove(tv_out)
             res["mc"][camp] = {"distinct": mc["distinct"], "generated": mc["generated"], "histories": n,
                                "maxops": maxops}
+            res["detail"] = {"model_checking": res["mc"], "events_validated": 0}
             res["states"] += mc["distinct"] + tv["distinct"]
             res["transitions"] += mc["generated"] + tv["generated"]
             res["traces"] += hstat["traces"]
@@ -117,6 +118,7 @@ def campaign(tier, seed):
                     if i in (0, n // 2, n - 1):
                         res["samples"].append(json.loads(l))
         res["wall_s"] = round(time.time() - t0, 1)
+        res["detail"]["events_validated"] = res["events"]
         st.store(res)
         return res
 
@@ -130,43 +132,13 @@ def case_of(stage_dir, camp, tr):
     return None
 
 
-def check(prop, tier, seed):
-    t0 = time.time()
-    res = campaign(tier, seed)
-    recs = [r for r in res["records"] if prop in props_of(r)]
+NAME = "module"
+
+
+def write_replay(r, tier, path):
     stage_dir = os.path.join(WORK, "stage", "module-" + tier)
-
-    def write_replay(r):
-        d = os.path.join(WORK, "replay")
-        os.makedirs(d, exist_ok=True)
-        p = os.path.join(d, "%s-module-%s-%d.json" % (prop, r["camp"], r["tr"]))
-        json.dump({"family": "module", "case": case_of(stage_dir, r["camp"], r["tr"]), "record": r},
-                  open(p, "w"), indent=1)
-        return p
-
-    findings = load_findings()
-    rc, n_unknown, known = finish(prop, recs, findings, write_replay)
-    traces_with = len(set((r["camp"], r["tr"]) for r in recs))
-    cov = {
-        "states": res["states"], "transitions": res["transitions"],
-        "traces_validated_against_impl": res["traces"],
-        "samples": res["samples"][:3],
-        "events_validated": res["events"],
-        "model_checking": res["mc"],
-        "exhaustive": True,
-        "rule": "every edit history of length <= MaxOps over the campaign alphabets (MC_Module.tla), "
-                "each replayed on the real API and judged by ModuleTrace.tla at every encode",
-        "records_for_property": len(recs), "traces_with_records": traces_with,
-        "known_finding_hits": {k: v[1] for k, v in known.items()},
-        "unlisted_records": n_unknown,
-    }
-    write_evidence(prop, tier, seed, cov,
-                   ["wasmparser decoder/validator, wasm-encoder and wat (input construction), the token "
-                    "scheme alpha (markers, unique import names / constants / page counts) and TLC are trusted",
-                    "bounds are small (see model_checking.maxops and the shapes of MC_Module.tla)",
-                    "a public call that panics is a rejected call (DESIGN.md B.4)"],
-                   time.time() - t0 + (0 if False else 0), n_unknown)
-    return rc
+    json.dump({"family": "module", "case": case_of(stage_dir, r["camp"], r["tr"]), "record": r},
+              open(path, "w"), indent=1)
 
 
 def replay(prop, path):
